@@ -9,6 +9,8 @@ CONSTANTS
   InitBals <- MCInitBals
   Amounts <- MCAmounts
   FaultKinds <- MCFaults
+  AdvChannels <- MCNone
+  ProofSound = TRUE
   RevKinds <- MCRevKinds
   NAdd <- MCAdd
   NSub <- MCSub
